@@ -8,7 +8,7 @@ PROPS = "RotoV.Props.C17"
 def search(ctx):
     """A proof or the tie is broken: hunt for a concrete call on which the real
     built-in differs from its documented meaning (boundary tables first — they
-    open every runner's case stream — then 20 000 generated tuples per built-in)."""
+    open every runner's case stream — then 60 000 generated tuples per built-in)."""
     if ctx.build_harness("c17"):
         ctx.harness("c17", ["run", ctx.seed + 7919, "thorough"], timeout=3000, name="search:c17")
 
